@@ -62,6 +62,29 @@ void *va_alloc(size_t n)
 	return p;
 }
 
+va_mark_t va_mark(void)
+{
+	va_mark_t m = {arena, arena ? arena->used : 0};
+	return m;
+}
+void va_release(va_mark_t m)
+{
+	while (arena && arena != m.chunk)
+	{
+		struct chunk *n = arena->next;
+		if (!spare && arena->cap == (1 << 16))
+		{
+			spare = arena;
+			spare->next = NULL;
+		}
+		else
+			free(arena);
+		arena = n;
+	}
+	if (arena)
+		arena->used = m.used;
+}
+
 static V *v_new(vkind k)
 {
 	V *v = va_alloc(sizeof *v);
